@@ -28,6 +28,7 @@ def _extra(run):
 
 SPEC = {
     "id": "C33",
+    "abort_is_violation": True,  # the property is totality: a process abort / hang of the real code on a case is a violation
     "level": "other",
     "lean_modules": ["PallasVerif.Props.C33", "PallasVerif.Proofs.ValueTotal"],
     "required_theorems": ["validate_total", "panic_sites_all_audited", "all_anchored_files_scanned", "exunits_total", "min_fee_total",
